@@ -685,6 +685,9 @@ def _interp_stmt(repo, cls, fn, st, ctx, res, gens):
         if isinstance(st.value, ast.Call) and call_name(st.value) == "empty":
             ctx["matrices"][tgt.id] = {"node": st, "dims": _matrix_dims(st.value, ctx), "entry": None}
             return
+        if isinstance(tgt, ast.Name) and isinstance(st.value, ast.Name) and st.value.id in ctx["matrices"]:
+            ctx["matrices"][tgt.id] = ctx["matrices"][st.value.id]       # another name of a matrix being filled (e.g. the result of an inlined builder)
+            return
         if isinstance(st.value, ast.Call) and call_name(st.value) == "PSDMatrix":
             arg = get_arg(st.value, 0, "matrix_of_expressions")
             mname, symd = _matrix_arg(arg)
